@@ -561,56 +561,6 @@ type entry struct {
 	label string
 	short map[string]any
 	vrf   *vrfDesc
-	pay   *payDesc
-}
-
-// payItemsDiffering counts in how many of the items the property enumerates for the signed bytes
-// (network name, instance, round, step, supplemental data, value chain) two descriptions differ.
-// The statement promises that the bytes change "whenever any one of these changes" and is
-// quantified over single-field perturbations; a collision between descriptions that differ in
-// two or more items at once is reported as an informational counter, not as a violation.
-func payItemsDiffering(a, b *payDesc) int {
-	n := 0
-	if a.NN != b.NN {
-		n++
-	}
-	if a.Instance != b.Instance {
-		n++
-	}
-	if a.Round != b.Round {
-		n++
-	}
-	if a.Phase != b.Phase {
-		n++
-	}
-	if a.Comm != b.Comm || !bytes.Equal(a.PT.Bytes(), b.PT.Bytes()) {
-		n++
-	}
-	va, vb := *a, *b
-	va.NN, va.Instance, va.Round, va.Phase, va.Comm, va.PT = "", 0, 0, 0, [32]byte{}, cid.Undef
-	vb.NN, vb.Instance, vb.Round, vb.Phase, vb.Comm, vb.PT = "", 0, 0, 0, [32]byte{}, cid.Undef
-	if va.canon() != vb.canon() {
-		n++
-	}
-	return n
-}
-
-// vrfItemsDiffering: same for the VRF ticket input (network, beacon, instance, round).
-func vrfItemsDiffering(a, b *vrfDesc) int {
-	n := 0
-	if a.NN != b.NN {
-		n++
-	}
-	if !bytes.Equal(a.Beacon, b.Beacon) {
-		n++
-	}
-	if a.Instance != b.Instance {
-		n++
-	}
-	if a.Round != b.Round {
-		n++
-	}
-	return n
 }
 
 func newCollisionMap() *collisionMap {
@@ -618,8 +568,7 @@ func newCollisionMap() *collisionMap {
 }
 
 // add returns (collision with, nondeterministic)
-func (m *collisionMap) add(b []byte, canon [32]byte, label string, d *payDesc) (*entry, bool) {
-	short := d.short
+func (m *collisionMap) add(b []byte, canon [32]byte, label string, short func() map[string]any) (*entry, bool) {
 	if prev, ok := m.byDesc[canon]; ok && prev != string(b) {
 		return nil, true
 	}
@@ -630,7 +579,7 @@ func (m *collisionMap) add(b []byte, canon [32]byte, label string, d *payDesc) (
 		}
 		return nil, false
 	}
-	m.byBytes[string(b)] = entry{canon: canon, label: label, short: short(), pay: d}
+	m.byBytes[string(b)] = entry{canon: canon, label: label, short: short()}
 	return nil, false
 }
 
@@ -675,9 +624,9 @@ func runSign(run *vkit.Run) {
 		cm := newCollisionMap()
 		bb := base.signingBytes()
 		bc := base.canon()
-		cm.add(bb, bc, "base", base)
+		cm.add(bb, bc, "base", base.short)
 		gmu.Lock()
-		if e, _ := global.add(bb, bc, fmt.Sprintf("base L=%d", j.L), base); e != nil && payItemsDiffering(base, e.pay) == 1 {
+		if e, _ := global.add(bb, bc, fmt.Sprintf("base L=%d", j.L), base.short); e != nil {
 			run.Violation("C14 sign: signing-bytes collision between two unrelated base payloads",
 				map[string]any{"case": caseID, "chain_len": j.L, "other": e.label, "a": base.short(), "b": e.short, "bytes": hex.EncodeToString(bb)})
 		}
@@ -718,15 +667,12 @@ func runSign(run *vkit.Run) {
 			b := pt.d.signingBytes()
 			label := fmt.Sprintf("%s/%s@%d", pt.field, pt.kind, pt.idx)
 			run.Distinct(fmt.Sprintf("sign|%s|%s|L=%d|i=%d", pt.field, pt.kind, j.L, pt.idx))
-			e, nondet := cm.add(b, c, label, pt.d)
+			e, nondet := cm.add(b, c, label, pt.d.short)
 			if nondet {
 				run.Violation(fmt.Sprintf("C14 sign: same payload description gave different signing bytes (field=%s kind=%s)", pt.field, pt.kind),
 					map[string]any{"case": caseID, "chain_len": j.L, "payload": pt.d.short()})
 			}
-			if e != nil && payItemsDiffering(pt.d, e.pay) != 1 {
-				run.Count("sign.multi_item_collisions_informational", 1)
-				run.Count("sign.multi_item_collision."+pt.field+"/"+pt.kind, 1)
-			} else if e != nil {
+			if e != nil {
 				run.Violation(fmt.Sprintf("C14 sign: payload signing-bytes collision field=%s kind=%s: two payload descriptions that differ (this perturbation vs %s) have equal MarshalForSigning bytes",
 					pt.field, pt.kind, strings.SplitN(e.label, "@", 2)[0]),
 					map[string]any{"case": caseID, "chain_len": j.L, "tipset": pt.idx, "a": pt.d.short(), "a_label": label, "b": e.short, "b_label": e.label, "bytes": hex.EncodeToString(b)})
@@ -767,13 +713,7 @@ func runSign(run *vkit.Run) {
 			run.Count("sign.sepshift_pairs", 1)
 			run.Distinct(fmt.Sprintf("sign|network|following|sepshift|cidlen=%d", a.PT.ByteLen()))
 			ba, bb := a.signingBytes(), b.signingBytes()
-			if a.canon() != b.canon() && bytes.Equal(ba, bb) && payItemsDiffering(a, b) != 1 {
-				// network name, step, round, instance, supplemental data and value all differ: outside
-				// the single-item statement; counted so the evidence shows the encoding is not
-				// injective on tuples when ':' is admitted in network names.
-				run.Count("sign.multi_item_collisions_informational", 1)
-				run.Count("sign.multi_item_collision.network|following/sepshift", 1)
-			} else if a.canon() != b.canon() && bytes.Equal(ba, bb) {
+			if a.canon() != b.canon() && bytes.Equal(ba, bb) {
 				run.Violation("C14 sign: payload signing-bytes collision field=network|following kind=boundary-move-across-separator: network N+\":\" with phase p and network N with phase 0x3a (all later fields shifted by one byte into the variable-length CID) give equal bytes",
 					map[string]any{"case": caseID, "a": a.short(), "b": b.short(), "bytes": hex.EncodeToString(ba)})
 			}
@@ -838,9 +778,6 @@ func runSign(run *vkit.Run) {
 			pd := p.d
 			if e, nondet := cm.addVRF(b, c, label, &pd); nondet {
 				run.Violation("C14 sign: same VRF description gave different bytes", map[string]any{"case": caseID, "vrf": p.d.short()})
-			} else if e != nil && vrfItemsDiffering(&pd, e.vrf) != 1 {
-				run.Count("sign.multi_item_collisions_informational", 1)
-				run.Count("sign.multi_item_collision.vrf."+p.field+"/"+p.kind, 1)
 			} else if e != nil {
 				o := e.vrf
 				field, kind := p.field, p.kind
